@@ -548,14 +548,23 @@ def _worker(args):
                 out["asserted_paths"] += 1
             if res.kind in ("cex", "exception", "unsupported"):
                 inputs = ctx.mk.concretize(res.model) if ctx is not None else {}
-                rec = dict(kind=res.kind, label=res.label, inputs=inputs, decisions=len(res.decisions))
+                kind = res.kind
+                if kind == "exception" and _proxy_leak(res.exc):
+                    # a proxy reached library code that has no model (e.g. CPython's re on a symbolic text): the path
+                    # is outside what the models cover, not a property violation; it is replayed concretely instead
+                    kind = "unsupported"
+                rec = dict(kind=kind, label=res.label, inputs=inputs, decisions=len(res.decisions))
                 if res.exc is not None:
                     rec["exc"] = type(res.exc).__name__
                     rec["msg"] = str(res.exc)[:300]
                     if res.kind == "exception":
                         rec["tb"] = "".join(traceback.format_exception(type(res.exc), res.exc, res.exc.__traceback__, limit=-8))[-1500:]
+                if kind == "unsupported":
+                    if sum(1 for c in cexs if c["kind"] == "unsupported") < 24:
+                        cexs.append(rec)
+                    return False
                 cexs.append(rec)
-                return len(cexs) >= 3
+                return sum(1 for c in cexs if c["kind"] != "unsupported") >= 3
             if res.kind == "ok" and len(out["samples"]) < 2 and ctx is not None and res.decisions:
                 try:
                     smp = dict(path_decisions=len(res.decisions),
@@ -616,6 +625,29 @@ def _worker(args):
         out["tb"] = traceback.format_exc(limit=20)
     out["wall_s"] = round(time.time() - t0, 2)
     return out
+
+
+_PROXY_NAMES = ("SSeq", "SInt", "SBool", "SLetter", "EnzymeWrap", "FragmentTuple", "SymMatch", "SymPattern", "CompSiteWrap")
+
+
+def _proxy_leak(exc):
+    """the exception comes from code outside /repo and the harness being handed a proxy object"""
+    if not isinstance(exc, (TypeError, AttributeError, ValueError)):
+        return False
+    msg = str(exc)
+    if not any(("'%s'" % n) in msg or (" %s " % n) in msg or msg.endswith(n) for n in _PROXY_NAMES):
+        return False
+    tb = exc.__traceback__
+    last = None
+    while tb is not None:
+        last = tb
+        tb = tb.tb_next
+    fn = last.tb_frame.f_code.co_filename if last is not None else ""
+    from . import loader
+
+    # raised while executing library code directly called from the repository (the raising frame is the repository's:
+    # C functions have no frame) or inside a library frame
+    return True if fn.startswith(loader.REPO) or "/site-packages/" in fn or "/lib/python" in fn else False
 
 
 def _cross_solver(queries, limit_ms=15000):
